@@ -11,10 +11,10 @@ import (
 // ---------- R-CLOSE1: channels are closed once ----------
 
 var reviewedSharedClose = map[string]string{
-	"MuxBroker.Accept|close(muxBrokerPending.doneCh)":                    "one acceptor per id at a time by API contract (documented on Accept); the slot is deleted by the expiry handler right after",
-	"GRPCBroker.DialWithOptions|close(gRPCBrokerPending.doneCh)":         "one dialer per id by API contract; the slot is deleted by the expiry handler right after",
-	"GRPCServer.Serve|close(GRPCServer.DoneCh)":                          "Serve is started exactly once per server by plugin.Serve",
-	"Serve$1|close(ServeTestConfig.CloseCh)":                             "deferred in Serve, which runs once per ServeConfig",
+	"MuxBroker.Accept|close(muxBrokerPending.doneCh)":                                   "one acceptor per id at a time by API contract (documented on Accept); the slot is deleted by the expiry handler right after",
+	"GRPCBroker.DialWithOptions|close(gRPCBrokerPending.doneCh)":                        "one dialer per id by API contract; the slot is deleted by the expiry handler right after",
+	"GRPCServer.Serve|close(GRPCServer.DoneCh)":                                         "Serve is started exactly once per server by plugin.Serve",
+	"Serve|close(ServeTestConfig.CloseCh)":                                              "deferred in Serve, which runs once per ServeConfig",
 	"grpcmux.GRPCServerMuxer.acceptSession|close(grpcmux.GRPCServerMuxer.sessionErrCh)": "acceptSession is started exactly once, by the constructor",
 }
 
@@ -87,7 +87,7 @@ func ruleClose1(c *Ctx) {
 					continue
 				}
 			}
-			if reason, ok := reviewedSharedClose[f.Name+"|"+construct]; ok {
+			if reason, ok := reviewedSharedClose[rootName(f)+"|"+construct]; ok {
 				c.R.Except("R-CLOSE1", p.Pos(call), f.Name, construct, reason)
 				continue
 			}
@@ -640,6 +640,41 @@ func ruleKill(c *Ctx) {
 			"Kill can return without calling runner.Kill although the process was not observed to have exited (not the no-runner early return, not the doneCtx arm)", p.PathTo(seen, g.Exit))
 	} else {
 		c.R.Hold("R-EXIT/kill", p.Pos(f.Node()), f.Name, "kill-or-exited on every exit", "every exit is the no-runner early return, the arm that received from Client.doneCtx.Done(), or passes runner.Kill", true)
+	}
+	// the runner reference is dropped only after the management goroutines were waited for
+	nClear := 0
+	okClear := true
+	for _, ff := range p.Funcs {
+		finfo := ff.Pkg.TypesInfo
+		fg := p.Graph(ff)
+		for _, m := range fg.Nodes {
+			as, ok := m.Ast.(*ast.AssignStmt)
+			if !ok {
+				continue
+			}
+			for i, l := range as.Lhs {
+				if SelField(finfo, l) != runnerF || i >= len(as.Rhs) || !isNilIdent(finfo, as.Rhs[i]) {
+					continue
+				}
+				nClear++
+				isWait := func(x *Node) bool {
+					for _, call := range callsIn(x.Ast) {
+						if p.CalleeName(ff, call) == "sync.WaitGroup.Wait" && p.wgDesc(ff, call) == "Client.clientWaitGroup" {
+							return true
+						}
+					}
+					return false
+				}
+				if rootName(ff) != "Client.Kill" || !fg.DominatedBy(m, isWait) {
+					okClear = false
+					c.R.Violate("R-EXIT/kill", p.Pos(as), ff.Name, "runner cleared only after the reaper was waited for",
+						"Client.runner is set to nil before Kill has waited for the process to be reaped: a concurrent or repeated Kill sees no runner and returns at once although the plugin is still alive", nil)
+				}
+			}
+		}
+	}
+	if okClear {
+		c.R.Hold("R-EXIT/kill", p.Pos(f.Node()), f.Name, "runner cleared only after the reaper was waited for", fmt.Sprintf("%d nil store(s) to Client.runner, each in Kill's deferred epilogue after clientWaitGroup.Wait()", nClear), true)
 	}
 	// graceful first: the grace wait is entered only when Close succeeded
 	var grace *BlockOp
